@@ -121,6 +121,12 @@ func caseScenario(r *hx.Rng, id int, c caseLine) *scenario {
 				cm.args = append(cm.args, bytesOf(k))
 			}
 			cm.args = append(cm.args, bytesOf(cu.Arg))
+		case cu.Kind == "dynamic":
+			// a module's command: its keys are what the target answers to COMMAND GETKEYS
+			cm = cmd{"modq.mset", nil}
+			for _, k := range cu.Keys {
+				cm.args = append(cm.args, bytesOf(k), v)
+			}
 		case len(cu.Keys) == 1:
 			cm = cmd{"set", [][]byte{bytesOf(cu.Keys[0]), v}} // the keys of a unit may coincide: one value type throughout
 		default:
@@ -188,7 +194,7 @@ func noopScript(s *fakeredis.Server, db int, script string, keys [][]byte, argv 
 }
 
 // refuse kinds of C18: what makes a unit unroutable on a cluster target
-var refuseKinds = []string{"txn2slots", "mset2slots", "del2slots", "emptytag", "lastbrace", "unknowncmd", "nestedbrace", "eval2slots", "twokeycmd", "twokeycmd"}
+var refuseKinds = []string{"txn2slots", "mset2slots", "del2slots", "emptytag", "lastbrace", "unknowncmd", "nestedbrace", "eval2slots", "twokeycmd", "twokeycmd", "dyn2slots"}
 
 // commands that address two keys, with the positions of both stated here independently of the tool's tables (Redis command
 // reference; RedisTimeSeries / RedisBloom command references): %a and %b stand for the two keys
@@ -275,7 +281,16 @@ func genScenario(r *hx.Rng, id int, maxUnits int, cluster bool, refuse string) *
 				}
 				continue
 			}
-			switch r.Intn(7) {
+			switch r.Intn(9) {
+			case 7:
+				// a command of a module: no static table knows it, the target tells its keys (COMMAND GETKEYS)
+				cm = cmd{"modq.set", [][]byte{key, val}}
+			case 8:
+				k2 := []byte(fmt.Sprintf("k2:%d:%d", u, c))
+				if cluster {
+					k2 = keyForm(r, tag, fmt.Sprintf("b%d:%d", u, c))
+				}
+				cm = cmd{"modq.mset", [][]byte{key, val, k2, val}}
 			case 5:
 				// a command whose key positions depend on its content: one key, and an argument that only looks like a
 				// key of another slot (the same shape and argument count as the two-key call below)
@@ -377,6 +392,9 @@ func genScenario(r *hx.Rng, id int, maxUnits int, cluster bool, refuse string) *
 			addCmd(&un, cmd{"mset", [][]byte{k1, v, ka, v}})
 		case "unknowncmd":
 			addCmd(&un, cmd{"fooq", [][]byte{ka, v}})
+		case "dyn2slots":
+			// the target reveals the keys of a module's command: two slots
+			addCmd(&un, cmd{"modq.mset", [][]byte{ka, v, kb, v}})
 		case "twokeycmd":
 			// one command, two keys in two slots: whatever table or target answer the tool consults, it has to end in refusal
 			tpl := twoKeyCmds[r.Intn(len(twoKeyCmds))]
